@@ -209,8 +209,15 @@ class Dims:
             if op == "Lt": forms.append((y, x, ft))          # !(x < y)   ==  y <= x
             for (lo, hi, edge) in forms:
                 if tt == ft: continue
-                if D.norm(strip_casts(lo)) == ne and self.kind(fk, hi) in ("N", "K") and body.dominates(edge, blk):
+                def guards_blk():
+                    if body.dominates(edge, blk): return True
+                    # flag-aware: the guard's block dominates blk and blk cannot be reached from the guard's OTHER edge without re-evaluating the guard
+                    # (the accepted value travels through an Option built on this edge and matched later: the join block is not dominated by the edge)
+                    other = ft if edge == tt else tt
+                    import util
+                    return body.dominates(b, blk) and blk not in util.flag_paths(body, dg, other, stop_blocks={b})
+                if D.norm(strip_casts(lo)) == ne and self.kind(fk, hi) in ("N", "K") and guards_blk():
                     return True
-                if D.norm(strip_casts(hi)) == ne and strip_casts(lo)[0] == "const" and hi[0] == "cast" and str(hi[1]).startswith("i") and body.dominates(edge, blk):
+                if D.norm(strip_casts(hi)) == ne and strip_casts(lo)[0] == "const" and hi[0] == "cast" and str(hi[1]).startswith("i") and guards_blk():
                     return True
         return False
